@@ -1,4 +1,4 @@
-(* C17 classifier: 0 Agree | 1 ModelMismatch | 2 PropertyFail | 101 known finding C17-K1 |
+(* C17 classifier: 0 Agree | 1 ModelMismatch | 2 PropertyFail |
    9 harness error (a Camt053 rule list outside the model: bank-transaction-code matchers).
    A case is a list of configuration documents, a file path, what ConfigSet::select returned,
    and either the CSV records fed to import::import under the selected configuration (with the
@@ -127,16 +127,14 @@ Definition camt_hits (e : entry pat) (r : camt_entity) : list (hit pat) :=
   hits (camt_matches re_captures) frag0 (compile (e_rewrite e)) r.
 
 (* the property on one transaction: payee, counter account and pending mark as the rules that hit
-   the record say; `strict`: the code is the one a hit captured when there is one (the property as
-   stated), otherwise the statement's reference; not strict: always the statement's reference
-   (what the Camt053 importer does, known finding C17-K1) *)
-Definition spec_camt_txn (strict : bool) (e : entry pat) (r : camt_entity) (t : stxn) : bool :=
+   the record say; the code is the one a hit captured when there is one, otherwise the statement's
+   reference (C17-K1, fixed in /repo d2eb1b8: the Camt053 importer used to ignore a captured code) *)
+Definition spec_camt_txn (e : entry pat) (r : camt_entity) (t : stxn) : bool :=
   let hs := camt_hits e r in
   let counter := if ce_debit r then first_post t else last_post t in
   str_eqb (st_payee t) (one_line (match spec_payee hs with Some p => p | None => unknown_payee end))
   && ostr_eqb (st_code t)
-              (option_map one_line (if strict then option_or (spec_code hs) (ce_reference r)
-                                    else ce_reference r))
+              (option_map one_line (option_or (spec_code hs) (ce_reference r)))
   && match counter with
      | None => false
      | Some p =>
@@ -148,10 +146,10 @@ Definition spec_camt_txn (strict : bool) (e : entry pat) (r : camt_entity) (t : 
          && clear_eqb (sp_clear p) (if spec_cleared hs then Uncleared else Pending)
      end.
 
-Fixpoint spec_camt_txns (strict : bool) (e : entry pat) (rs : list camt_entity) (ts : list stxn) : bool :=
+Fixpoint spec_camt_txns (e : entry pat) (rs : list camt_entity) (ts : list stxn) : bool :=
   match rs, ts with
   | [], [] => true
-  | r :: rr, t :: tr => spec_camt_txn strict e r t && spec_camt_txns strict e rr tr
+  | r :: rr, t :: tr => spec_camt_txn e r t && spec_camt_txns e rr tr
   | _, _ => false
   end.
 
@@ -163,20 +161,12 @@ Definition camt_records (e : entry pat) (entries : list (list camt_entity)) : li
    convert (invalid regex, a CSV-only field, an empty AND-list) is refused *)
 Definition camt_rules_ok (e : entry pat) : bool := rules_ok (camt_valid re_valid) (e_rewrite e).
 
-Definition spec_camt (strict : bool) (e : entry pat) (entries : list (list camt_entity)) (o : imp_obs) : bool :=
+Definition spec_camt (e : entry pat) (entries : list (list camt_entity)) (o : imp_obs) : bool :=
   match o with
   | ImpPanic | ImpNotRun => false
   | ImpErr _ => negb (camt_rules_ok e)
-  | ImpOk ts => camt_rules_ok e && spec_camt_txns strict e (camt_records e entries) ts
+  | ImpOk ts => camt_rules_ok e && spec_camt_txns e (camt_records e entries) ts
   end.
-
-(* known finding C17-K1 (known_findings.json, code 1): some record's rules captured a code that is
-   not the statement's reference; the Camt053 importer books the reference (or no code) *)
-Definition known_class_camt_code (e : entry pat) (entries : list (list camt_entity)) : bool :=
-  existsb (fun r => match spec_code (camt_hits e r) with
-                    | Some c => negb (ostr_eqb (Some (one_line c)) (option_map one_line (ce_reference r)))
-                    | None => false
-                    end) (camt_records e entries).
 
 (* the model's transactions, seen through the same four observables *)
 Definition view_agrees (r : camt_entity) (v : camt_view) (t : stxn) : bool :=
@@ -212,10 +202,7 @@ Definition classify_camt (c : camt_case) : N :=
   | SelOk e =>
       if negb (camt_in_model (e_rewrite e)) then 9%N
       else if negb sel_spec then 2%N
-      else if negb (spec_camt true e (kc_entries c) (kc_imp c)) then
-        (if spec_camt false e (kc_entries c) (kc_imp c) && known_class_camt_code e (kc_entries c)
-            && sel_same && camt_model_agrees e (kc_entries c) (kc_imp c)
-         then 101%N else 2%N)
+      else if negb (spec_camt e (kc_entries c) (kc_imp c)) then 2%N
       else if sel_same && camt_model_agrees e (kc_entries c) (kc_imp c) then 0%N else 1%N
   | _ =>
       if negb sel_spec then 2%N
